@@ -59,7 +59,33 @@ def ref_apply(iso, op, X, Y=None):
     raise KeyError(op)
 
 
-def call_op(alg, op, *mvs):
+INFIX_BIN = {'gp': '*', 'sw': '>>', 'ip': '|', 'op': '^', 'rp': '&', 'proj': '@', 'add': '+', 'sub': '-', 'div': '/'}
+INFIX_UN = {'neg': lambda x: -x, 'reverse': lambda x: ~x}
+_FORM = [0]
+FORMS_USED = {}
+
+
+def call_op(alg, op, *mvs, form=None):
+    """Call an operator through one of its public spellings - alg.op(x, y), x.op(y) or the infix form - cycling between
+    them, so that a regression in only one of the entry points (e.g. a fast path in a MultiVector method) is exercised too."""
+    import operator as _o
+    if form is None:
+        _FORM[0] += 1
+        form = ('alg', 'method', 'infix')[_FORM[0] % 3]
+    if form == 'infix':
+        if len(mvs) == 2 and op in INFIX_BIN:
+            FORMS_USED['infix'] = FORMS_USED.get('infix', 0) + 1
+            f = {'*': _o.mul, '>>': _o.rshift, '|': _o.or_, '^': _o.xor, '&': _o.and_, '@': _o.matmul, '+': _o.add, '-': _o.sub,
+                 '/': _o.truediv}[INFIX_BIN[op]]
+            return f(*mvs)
+        if len(mvs) == 1 and op in INFIX_UN:
+            FORMS_USED['infix'] = FORMS_USED.get('infix', 0) + 1
+            return INFIX_UN[op](mvs[0])
+        form = 'method'
+    if form == 'method' and hasattr(type(mvs[0]), op):
+        FORMS_USED['method'] = FORMS_USED.get('method', 0) + 1
+        return getattr(mvs[0], op)(*mvs[1:])
+    FORMS_USED['alg'] = FORMS_USED.get('alg', 0) + 1
     return getattr(alg, op)(*mvs)
 
 
